@@ -204,10 +204,10 @@ BH_HIST = [
     ("2d-3x3-built-n4-ops1", 2, "{8,9,10}", "{1}", 4, 3, 3, True, 1, "quick"),
     ("3d-2x2x2-m12-n2-ops2", 3, "{8,9}", "{1,2}", 2, 1, 3, False, 1, "quick"),
     ("3d-2x2x2-built-n4-ops1", 3, "{8,9}", "{1}", 4, 3, 3, True, 1, "quick"),
-    ("2d-2x2-m12-n3-ops3", 2, "{8,9}", "{1,2}", 3, 2, 4, False, 4, "thorough"),
-    ("2d-2x2-m1-n2-ops6", 2, "{8,9}", "{1}", 2, 1, 7, False, 1, "thorough"),
-    ("2d-4x4-built-n3-ops1", 2, "{8,9,10,11}", "{1}", 3, 3, 3, True, 2, "thorough"),
-    ("3d-2x2x2-m12-n2-ops3", 3, "{8,9}", "{1,2}", 2, 1, 4, False, 4, "thorough"),
+    ("2d-2x2-m12-n3-ops2", 2, "{8,9}", "{1,2}", 3, 2, 3, False, 1, "thorough"),
+    ("2d-2x2-m1-n2-ops4", 2, "{8,9}", "{1}", 2, 1, 5, False, 1, "thorough"),
+    ("2d-4x4-built-n3-ops1", 2, "{8,9,10,11}", "{1}", 3, 2, 3, True, 1, "thorough"),
+    ("3d-2x2x2-m12-built-n2-ops2", 3, "{8,9}", "{1,2}", 2, 1, 4, True, 1, "thorough"),
     ("3d-3x3x3-built-n3-ops1", 3, "{8,9,10}", "{1}", 3, 2, 3, True, 2, "thorough"),
 ]
 
